@@ -105,19 +105,19 @@ def levelWrite (w : Win) (t : Tree) (idx : Nat) (off : Nat) (data : Bytes) : Exc
     .ok (w.write (eo + pos') data)
   | none => dpWrite w t.dp (min (lv.offset + pos) t.dp.lv3.size) data
 
+/-- one `read(bs)` of the re-read loop: state = (position of the level file, hashes so far) -/
+def rereadStep (H : Bytes → Bytes) (P : Bytes) (t : Tree) (idx : Nat) (acc : Except Err (Nat × List Bytes)) (_i : Nat) :
+    Except Err (Nat × List Bytes) :=
+  match acc with
+  | .error e => .error e
+  | .ok (pos, hs) =>
+    match levelRead P t idx pos (t.level idx).bs with
+    | .error e => .error e
+    | .ok d => .ok (pos + d.length, hs ++ [H (ljustZero d (t.level idx).bs)])
+
 /-- the re-read of the touched blocks: `level_fp.seek(sb * bs)` then one `read(bs)` per block, sequentially -/
 def rereadBlocks (H : Bytes → Bytes) (P : Bytes) (t : Tree) (idx : Nat) (sb n : Nat) : Except Err (List Bytes) :=
-  let lv := t.level idx
-  let res := (List.range n).foldl (fun (acc : Except Err (Nat × List Bytes)) _ =>
-    match acc with
-    | .error e => .error e
-    | .ok (pos, hs) =>
-      match levelRead P t idx pos lv.bs with
-      | .error e => .error e
-      | .ok d => .ok (pos + d.length, hs ++ [H (ljustZero d lv.bs)])) (.ok (min (sb * lv.bs) lv.size, []))
-  match res with
-  | .error e => .error e
-  | .ok (_, hs) => .ok hs
+  ((List.range n).foldl (rereadStep H P t idx) (.ok (min (sb * (t.level idx).bs) (t.level idx).size, []))).map (·.2)
 
 structure WState where
   w : Win
